@@ -212,7 +212,7 @@ func (nopExec) Context() context.Context  { return context.Background() }
 func c15Scenarios(tier string) []*Scenario {
 	bound := 2
 	if tier == "thorough" {
-		bound = 3
+		bound = 4
 	}
 	var out []*Scenario
 	add := func(c *c15Case) {
